@@ -76,8 +76,12 @@ def run(an: Analysis, rep):
         "CPython's limits, split-loop coherence / order / shortcuts, the -128 <-> None marker also in continuation entries, (unsigned, signed) "
         "byte pairing; and shape facts of the two mapping stages: the decoded line is a running sum of deltas that a no-line run neither moves "
         "nor resets, the builder takes deltas against the last real line, the lnotab walk cannot end while entries remain, lines are never "
-        "tested by truthiness, the first-line shift covers every line. Arithmetic over integer sequences (cursor logic of collapse_items on "
-        "merged entries, loop bounds computed from sums, zero-width entries) is NOT decided (DESIGN section 8)."
+        "tested by truthiness, the first-line shift covers every line. R10.F folds the two drivers of the codec and every stage they call over "
+        "witness tables written by a transcription of CPython's own assemblers (3.7/3.8, 3.9, 3.10, and the peephole pass's offset rewriting) - "
+        "line steps of +-127/128/129/254/255/300/700, bytecode gaps of 254/256/510/512/1020, both at once, zero-width entries, runs without a "
+        "line, entries behind the last instruction - against a transcription of CPython's reader, and requires the table back byte for byte; "
+        "R10.A / R10.E fold the encoder's assembly loop and the trailing-entry method. Tables outside the witness set are decided only through "
+        "the predicate rules (every entry value, not every sequence)."
     )
     rep.rule("R10.1", "merge thresholds = split emissions = CPython limits, per format", 6)
     rep.rule("R10.2", "each split loop uses one constant for test, emission and decrement", 3)
@@ -103,7 +107,7 @@ def run(an: Analysis, rep):
     rep.run(_c11a.r115, an, SharedRules(rep, "R10.E", "the entries CPython wrote behind the last instruction are kept with their line and their redundant pieces (shared with C11's R11.5)"))
     rep.run(truthiness_rule, an, rep, "R10.T", ["from_code", "to_code"], [("Instruction", "line_number"), ("AdditionalLine", "line")])
     rep.assumptions += ["format limits as in Objects/lnotab_notes.txt (reference/contracts.py LINE_LIMITS)"]
-    rep.extra["not_decided"] = "table arithmetic over integer sequences (cursor logic of collapse_items on merged entries, loop bounds computed from sums, zero-width entries)"
+    rep.extra["not_decided"] = "sequences of table entries other than the witness tables of R10.F (the predicate rules cover every single entry value, the fold a finite set of sequences)"
 
 
 def format_rules(an: Analysis, rep):
